@@ -196,9 +196,12 @@ class solve_torchfcn(torch.autograd.Function):
             with ctx.A.uselinopparams(*params):
                 loss = -ctx.A.mm(x)  # (*BABEM, nr, ncols)
 
-        grad_params = torch.autograd.grad((loss,), params, grad_outputs=(v,),
-                                          create_graph=torch.is_grad_enabled(),
-                                          allow_unused=True)
+        # (an operator without tensor parameters has nothing to differentiate)
+        grad_params = []
+        if len(params) > 0:
+            grad_params = torch.autograd.grad((loss,), params, grad_outputs=(v,),
+                                              create_graph=torch.is_grad_enabled(),
+                                              allow_unused=True)
 
         # calculate the biases gradient
         grad_E = None
@@ -218,7 +221,7 @@ class solve_torchfcn(torch.autograd.Function):
         # (M does not influence the result if E is None, but its parameters
         # are still inputs of this function, so each of them needs an entry)
         grad_mparams = [None for _ in mparams]
-        if ctx.M is not None and E is not None:
+        if ctx.M is not None and E is not None and len(mparams) > 0:
             with torch.enable_grad():
                 mparams = [p.clone().requires_grad_() for p in mparams]
                 lmbdax = x * E.unsqueeze(-2)
